@@ -214,7 +214,7 @@ def symbolHandler (cm : Bool) (idVal : String) (pp : Path) (p : T) (sp : Path) (
         some ((pairMap pp sp).addBind ⟨.var, name, sid, sp⟩)
     else shallowMain cm ["ctx"] pp p sp s
   | .exp =>
-    if mm then some { pairMap pp sp with exps := [(name, sp)] }
+    if mm && idVal = "id" then some { pairMap pp sp with exps := [(name, sp)] }
     else shallowMain cm ["ctx"] pp p sp s
   | .wild =>
     if mm then some (pairMap pp sp) else shallowMain cm ["ctx"] pp p sp s
@@ -393,21 +393,5 @@ def findMatches (p s : T) : List (AstMap × Option Path) :=
   let pr := trimRoot p
   let sr := trimRoot s
   (anyNode pr.2 pr.1 sr.2 sr.1).map fun m => (m, dictGet pr.2 m.mappings)
-
-/-- Patterns on which the real code raises instead of answering (an `__exp__`-shaped name on an `arg` or
-`Attribute` node makes `add_exp_to_sym_table` read a missing `.id`): not modelled. -/
-def unsupportedNode (t : T) : Bool :=
-  (t.kind = "arg" && nameClass (t.strAttr "arg") = .exp) ||
-  (t.kind = "Attribute" && nameClass (t.strAttr "attr") = .exp)
-
-mutual
-def unsupported (t : T) : Bool :=
-  match t with
-  | .mk k f fl kids => unsupportedNode (.mk k f fl kids) || unsupportedL kids
-def unsupportedL (ts : List T) : Bool :=
-  match ts with
-  | [] => false
-  | t :: rest => unsupported t || unsupportedL rest
-end
 
 end Pedal.Cait
